@@ -84,6 +84,8 @@ def gen_update_opts(rng, info, prior_kind, allow_sub=True, api=None):
             u['path'] = rng.choice(la)
         elif subs:
             u['path'] = rng.choice(subs)
+    if prior_kind != 'absent' and 'path' not in u and rng.random() < 0.08:
+        u['create'] = True       # `gemato create` / allow_create=True over a tree that already has its Manifests
     if u['api'] == 'cli':
         u.pop('sort', None)      # no CLI flag for it
     elif rng.random() < 0.2 and prior_kind != 'absent':
